@@ -300,6 +300,25 @@ class CallsMixin:
             return PyObj('emptyset')
         if isinstance(v, PyObj) and v.tag == 'genexp':
             return self.subset_comprehension(v.node)
+        if isinstance(v, PyObj) and v.tag == 'emptylist':
+            return PyObj('emptyset')
+        if isinstance(v, V) and isinstance(v.kind, K.Seq) and v.kind.elem is not None:
+            # set(list): exactly the elements of the list (witness index for the backward direction)
+            out = self.p.fresh_value(K.Set(v.kind.elem), 'setof')
+            n = K.seq_len(v)
+            i = self.p.fresh('setof!i', z3.IntSort())
+            sorts = v.kind.elem.leaf_sorts()
+            xs = [self.p.fresh('setof!x', srt) for srt in sorts]
+            wit = self.p.fresh('setof!w', K.nested_array_sort(sorts, z3.IntSort()))
+            at_i = [z3.Select(a, i) for a in v.terms[1:]]
+            self.p.assume(z3.And(0 <= out.terms[0], out.terms[0] <= n))
+            self.p.assume(K.forall([i], z3.Implies(z3.And(0 <= i, i < n), K.nsel(out.terms[1], at_i)), patterns=at_i[:1]))
+            wx = K.nsel(wit, xs)
+            self.p.assume(K.forall(xs, z3.Implies(K.nsel(out.terms[1], xs), z3.And(
+                0 <= wx, wx < n, *[z3.Select(a, wx) == x for a, x in zip(v.terms[1:], xs)])),
+                patterns=[K.nsel(out.terms[1], xs)]))
+            self.assume_valid(out)
+            return out
         raise Unsupported('set(x)')
 
     def b_dict_eq(self, args, kwargs, node):
@@ -877,6 +896,24 @@ class CallsMixin:
                 upd = K.set_remove(base, args[0])
             elif name == 'update' and len(args) == 1 and isinstance(args[0], PyObj) and args[0].tag == 'genexp':
                 upd = self.image_set(args[0].node.elt, args[0].node.generators, base=base)
+            elif name == 'update' and len(args) == 1 and isinstance(args[0], PyObj) and \
+                    args[0].tag in ('emptylist', 'emptyset'):
+                upd = base
+            elif name == 'update' and len(args) == 1 and isinstance(args[0], V) and args[0].kind == k and \
+                    k.elem.nleaves() == 1:
+                # union in place: membership is the disjunction, the size lies between the larger and the sum
+                other = args[0]
+                x = z3.Const('un!x', k.elem.leaf_sorts()[0])
+                size = self.p.fresh('un!size', z3.IntSort())
+                self.p.assume(z3.And(size >= base.terms[0], size >= other.terms[0],
+                                     size <= base.terms[0] + other.terms[0]))
+                mem = self.p.fresh('un!mem', base.terms[1].sort())
+                self.p.assume(K.forall([x], z3.Select(mem, x) == z3.Or(z3.Select(base.terms[1], x),
+                                                                         z3.Select(other.terms[1], x)),
+                                       patterns=[z3.Select(mem, x), z3.Select(base.terms[1], x),
+                                                 z3.Select(other.terms[1], x)]))
+                upd = V(k, [size, mem])
+                self.assume_valid(upd)
         elif isinstance(k, K.Map):
             if name == 'get':
                 dflt = args[1] if len(args) > 1 else K.NONE
